@@ -44,7 +44,8 @@ def masked_tree(text, adjusted, props):
                 last_color = i
         for i, d in enumerate(ds):
             if d[0] == "decl" and ((sel in adjusted and i == last_color) or (sel in (":root", "html") and d[1] in props)):
-                out.append(("decl", d[1], "<MASKED VALUE>", d[3]))
+                # the value may differ, the comments written inside it may not disappear
+                out.append(("decl", d[1], ("<MASKED VALUE>",) + tuple(t for t in d[2] if t[0] == "comment" and t[1] != ""), d[3]))
             else:
                 out.append(d)
         return tuple(out)
@@ -221,7 +222,7 @@ def chunk(job):
         ob = O.run_sheet(sheet.text, st)
         vs = judge_obs(sheet, st, ob)
         n += 1
-        if vs and len(out) < 8:
+        if vs and len(out) < 80:
             out += vs
     return n, out
 
